@@ -137,19 +137,20 @@ def finish(ctx, explanation, level='other'):
 # which breaks the property *through* a lemma is reported by the property's own command as well.
 LEMMAS = {
     'C01': ['C03', 'C04', 'C06', 'C11', 'C12', 'PRIM'],
-    'C04': ['PRIM'],
+    'C03': ['C08'],
+    'C04': ['PRIM', 'C17'],
     'C05': ['PRIM'],
     'C06': ['PRIM'],
-    'C07': ['C03'],
+    'C07': ['C03', 'C13'],
     'C08': ['C03'],
     'C09': ['C03', 'C04', 'C06', 'PRIM'],
-    'C10': ['C04', 'C06', 'PRIM'],
+    'C10': ['C04', 'C06', 'C09', 'PRIM'],
     'C11': ['C03', 'C04', 'PRIM'],
     'C12': ['PRIM'],
     'C13': ['C03'],
     'C14': ['C02'],
     'C15': ['C02'],
-    'C17': ['C03', 'C04', 'PRIM'],
+    'C17': ['C03', 'C04', 'C06', 'PRIM'],
     'C18': ['C03', 'C04', 'C17', 'PRIM'],
     'C19': ['C11', 'PRIM'],
 }
@@ -229,6 +230,8 @@ def other_configurations(ctx, only=None):
             continue
         if only is not None and core not in only:
             continue
+        if core.endswith('-t32') and ctx.pid not in c20.T32_RULES:
+            continue
         label = core.replace('core-', '')
         load.ALIAS = {'core-full': core}
         if serde:
@@ -278,6 +281,10 @@ def main(argv):
             # the float accessors have a different shape without `half` (no 0xf9 arms): the quick tier covers that build too
             expl += ' The same rules are also run on the build without the `half` feature.'
             other_configurations(ctx, only=('core-none',))
+        if ctx.tier == 'quick' and ctx.pid == 'C05':
+            # usize / isize have their own impls on 32-bit targets (d.u32() / d.i32()): the width rules are run on that build too
+            expl += ' The same rules are also run on a 32-bit build (target_pointer_width = "32", thumbv7m-none-eabi, core/alloc from rust-src).'
+            other_configurations(ctx, only=('core-alloc-t32',))
         if ctx.tier == 'thorough' and ctx.pid in ('C01', 'C02', 'C03', 'C04', 'C05', 'C12', 'C13'):
             expl += ' Thorough tier: the same rules re-run on the MIR of the other feature configurations (none, half, alloc, std).'
             other_configurations(ctx)
